@@ -371,7 +371,7 @@ int main(int argc, char **argv) {
         bool degenerate = vs::hasCollinearTriple(rp, eps);
         std::string tag = degenerate ? (lee ? "lee-collinear" : "naive-vis-collinear") : (lee ? "generic-lee" : "generic-naive");
         if (penalty > 0) tag += ignoreRegions ? "-pen-pruned" : "-pen-full";
-        runCase(k, tag, s, cs, lee, penalty, ignoreRegions);
+        runCase(k, tag, s, cs, lee, penalty, ignoreRegions, true);
     }
     // ---- aligned-sides class (strict): 2..4 separated rectangles in a row (or column) with one side on a
     //      common line, every insertion order, endpoints beyond both ends of the row and slightly on the
@@ -413,7 +413,7 @@ int main(int argc, char **argv) {
         if (r.coin(1, 3)) {                 // a second connector in the other direction / other offset
             ConnSpec c2 = cn; c2.id = 102; std::swap(c2.sx, c2.dx); std::swap(c2.sy, c2.dy); cs.push_back(c2);
         }
-        runCase(k, penalty > 0 ? "aligned-sides-pen" : "aligned-sides", s, cs, true, penalty, ignoreRegions);
+        runCase(k, penalty > 0 ? "aligned-sides-pen" : "aligned-sides", s, cs, true, penalty, ignoreRegions, true);
     }
     // ---- fractional-onebox class (strict): one rectangle, two competing routes: over the box with 1 bend
     //      (length L1) and under it with 2 bends (length L2 < L1); the box bottom is tuned so that
@@ -453,7 +453,7 @@ int main(int argc, char **argv) {
         ConnSpec cn; cn.id = 101; X(0, 0, cn.sx, cn.sy); X(dx, dy, cn.dx, cn.dy);
         if (r.coin()) { std::swap(cn.sx, cn.dx); std::swap(cn.sy, cn.dy); }
         std::vector<ConnSpec> cs; cs.push_back(cn);
-        runCase(k, "fractional-onebox", s, cs, true, pen, r.coin(3, 4));
+        runCase(k, "fractional-onebox", s, cs, true, pen, r.coin(3, 4), true);
     }
     // ---- edit-history classes.  Every history reserves HSLOT case indices (one per transaction).
     const long HSLOT = 6;
